@@ -24,6 +24,7 @@ Definition store := list cell.          (* object identity = index *)
 (* Python values that reach an operator call *)
 Inductive pyval := VElem (i : nat) | VArr (d : buf) | VSc (v : V) | VNone | VJunk.
 
+(* OpDomainError | OpRangeError | TypeError | ValueError | anything else *)
 Inductive err := EDomain | ERange | EFunctionalOut | EBadReturn | EOther.
 Inductive outcome (A : Type) := Ok (a : A) (s : store) | Err (e : err) (s : store).
 Arguments Ok {A}. Arguments Err {A}.
@@ -218,6 +219,7 @@ Definition default_ip (ran : rsp) (call_oop : pyval -> M pyval) (x out : pyval) 
   ro <- cast_rsp ran r ;;
   match ro, out with
   | Some (VElem i), VElem o => _ <- do_assign o i ;; ret VNone
+  | None, _ => fail EBadReturn     (* range.element(result) raises ValueError, not caught here *)
   | _, _ => fail EOther
   end.
 (* Operator.__new__: which slot gets what *)
@@ -451,3 +453,29 @@ Definition call (o : op) (x : pyval) (out : option pyval) : M pyval := o_call (s
 End Model.
 
 Arguments Ok {V A}. Arguments Err {V A}.
+
+(* ---------------------------------------------------------------- dispatch *)
+(* operator.py:_dispatch_call_args as a function of the shape of the `_call`
+   signature (parameter names after self, number of positional defaults, whether the
+   last default is None, *args present, keyword-only `out` and whether it defaults to
+   None).  None = the signature is rejected (ValueError). *)
+From Coq Require Import String.
+Record csig := { s_pos : list string; s_ndef : nat; s_last_none : bool; s_vararg : bool;
+                 s_kwout : option bool }.
+Definition dispatch (g : csig) : option kind :=
+  if s_vararg g then None
+  else match s_pos g with
+       | [a] =>
+           if String.eqb a "out" then None
+           else match s_kwout g with
+                | None => Some KOop
+                | Some true => Some KBoth
+                | Some false => None
+                end
+       | [a; b] =>
+           if String.eqb a "out" then None
+           else if negb (String.eqb b "out") then None
+           else if (0 <? s_ndef g)%nat then (if s_last_none g then Some KBoth else None)
+           else Some KIp
+       | _ => None
+       end.
